@@ -338,6 +338,10 @@ func (in *Interp) choose(name string, lo, hi int64) int64 {
 	if hi < lo {
 		panic(pathAbort{"infeasible", "empty Choose range"})
 	}
+	if prev, ok := ex.choices[name]; ok {
+		// same name, same value (as in the native runtime, where choices are read by name)
+		return prev
+	}
 	var v int64
 	if ex.pos < len(ex.prefix) {
 		d := ex.prefix[ex.pos]
